@@ -63,10 +63,16 @@ FILES = {            # model path -> content id;  search dirs: /t1 /t2 /pkgs/c28
     "/t2/a": 11, "/t2/b": 12, "/t2/sub/b": 13,
     "/pkgs/c28pkg/templates/a": 21, "/pkgs/c28pkg/templates/sub/a": 22, "/pkgs/c28pkg/templates/C:": 23,
     # sentinels outside every search directory
+    "/t1/empty": 0, "/t2/sub/empty": 0, "/pkgs/c28pkg/templates/empty": 0,
     "/secret": 90, "/a": 91, "/outside/secret": 92, "/outside/a": 93, "/t1x/a": 94, "/pkgs/c28pkg/secret": 95,
     "/pkgs/secret": 96, "/sub/a": 97, "/C:": 98,
 }
 PKG_INIT = "/pkgs/c28pkg/__init__.py"
+
+
+def body(cid):
+    """template source for a content id; id 0 is the EMPTY template (a valid template whose source is falsy)"""
+    return f"id:{cid}" if cid else ""
 
 
 def make_sandbox(ctx):
@@ -76,7 +82,7 @@ def make_sandbox(ctx):
         p = sb + mp
         os.makedirs(os.path.dirname(p), exist_ok=True)
         with open(p, "w", encoding="utf-8") as f:
-            f.write(f"id:{cid}")
+            f.write(body(cid))
     with open(sb + PKG_INIT, "w") as f:
         f.write("")
     return sb
@@ -113,7 +119,7 @@ def build_real(jinja2, sb, desc, reg=None):
     if k == "D":
         d = {}
         for n, c in desc[1]:
-            d.setdefault(n, f"id:{c}")
+            d.setdefault(n, body(c))
         if reg is not None:
             reg.append(d)
         return jinja2.DictLoader(d)
@@ -121,7 +127,7 @@ def build_real(jinja2, sb, desc, reg=None):
         # FunctionLoader over the same kind of table; answers alternate between the plain-string and the tuple form
         d = {}
         for n, c in desc[1]:
-            d.setdefault(n, f"id:{c}")
+            d.setdefault(n, body(c))
         return jinja2.FunctionLoader(lambda name, d=d: None if name not in d else (d[name] if len(name) % 2 else (d[name], None, lambda: True)))
     if k == "C":
         return jinja2.ChoiceLoader([build_real(jinja2, sb, x, reg) for x in desc[1]])
@@ -212,7 +218,7 @@ def real_get(jinja2, env, loader, name, sb, how):
     strip = lambda p: p[len(sb):] if p.startswith(sb + "/") else (p if not p.startswith("/") else "!" + p)   # relative: as is
     o = enc(strip(opens[0])) if len(opens) == 1 else ("~" if not opens else "!multi")
     f = "~" if fn is None else enc(strip(fn))
-    cid = src[3:] if src.startswith("id:") else "?" + src[:10]
+    cid = src[3:] if src.startswith("id:") else ("0" if src == "" else "?" + src[:10])
     return f"F {o} {f} {cid}", opens
 
 
@@ -511,8 +517,8 @@ def rand_loader(rng, depth):
     if k == "K":
         return ("K",)
     if k in ("D", "U"):
-        pool = ["a", "b", "sub/a", "p/a", "a::b", "../secret", "x/../a", ""]
-        return (k, [(n, 40 + rng.randint(0, 9)) for n in rng.sample(pool, rng.randint(0, 3))])
+        pool = ["a", "b", "sub/a", "p/a", "a::b", "../secret", "x/../a", "", "empty"]
+        return (k, [(n, rng.choice([0, 0] + list(range(40, 50)))) for n in rng.sample(pool, rng.randint(0, 3))])
     if k == "C":
         return ("C", [rand_loader(rng, depth - 1) for _ in range(rng.randint(0, 3))])
     return ("X", rng.choice(["/", "/", "::", "", "a", "b/"]),
@@ -561,7 +567,7 @@ def run_fs(ctx, jinja2, sb, names, rnd_names):
         for n in rnd_names[:ctx.size(1500, 10000)]:
             todo.append((desc, ld, n, "get_source"))
     nm_pool = ["a", "b", "sub/a", "p/a", "q/a", "p/sub/a", "p::a", "a::b", "../secret", "p/../secret", "p//a", "/a", "p/", "p",
-               "", "sub/../a", "q/p/a", "p/p/a", "b/a", "a/a", "p/..", "sub/é", "p/C:", "..::a", "../a"]
+               "", "sub/../a", "q/p/a", "p/p/a", "b/a", "a/a", "p/..", "sub/é", "p/C:", "..::a", "../a", "empty", "p/empty", "sub/empty"]
     for _ in range(ctx.size(1500, 15000)):
         desc = rand_loader(ctx.rng, 3)
         ld = build_real(jinja2, sb, desc)
@@ -827,6 +833,9 @@ MUT_COMPS = [
     (("X", "/", [("p", ("C", [("D", []), ("D", [("a", 42)])]))]), "p/a"),
     (("C", [("C", [("D", []), ("D", [("a", 43)])]), ("D", [("a", 44), ("b", 45)])]), "a"),
     (("C", [("D", [("a", 46)]), ("X", "::", [("", ("D", [("a", 47)]))])]), "a"),
+    # an EMPTY template (falsy source) in an earlier FunctionLoader / DictLoader member must win over a later member
+    (("C", [("U", [("a", 0)]), ("D", [("a", 48)])]), "a"),
+    (("X", "/", [("p", ("C", [("D", []), ("U", [("a", 0), ("ab", 0)])]))]), "p/a"),
 ]
 MUT_OPS = ["g", "l", "+0", "-0", "+1", "-1"]     # get_source / load of the name; add / delete name 'a' in Dict leaf 0 / 1
 
@@ -846,8 +855,8 @@ def dict_leaves(desc, out=None):
 
 def thaw(desc):
     """deep copy with lists (mutable)"""
-    if desc[0] == "D":
-        return ["D", [list(x) for x in desc[1]]]
+    if desc[0] in ("D", "U"):
+        return [desc[0], [list(x) for x in desc[1]]]
     if desc[0] == "C":
         return ["C", [thaw(x) for x in desc[1]]]
     if desc[0] == "X":
@@ -889,7 +898,7 @@ def run_history(ctx, jinja2, env, sb, ci, ops, lines=None):
             if i < len(reg):
                 reg[i].pop("a", None)
                 if o[0] == "+":
-                    reg[i]["a"] = f"id:{50 + i}"
+                    reg[i]["a"] = body(50 + i)
             continue
         check_one(ctx, jinja2, env, sb, snap, loader, name, lines[li], "get_source" if o == "g" else "load",
                   case={"kind": "mut", "composition": ci, "ops": list(ops), "step": si, "name": name})
